@@ -277,7 +277,22 @@ func (l *Ledger) Data(sid uint32, endStream bool, data []byte, pad int) error {
 		}
 		raw = RawFrame(0x0, fl, sid, payload)
 	}
-	l.record(lop{kind: opData, sid: sid, n: n, end: endStream, hasIW: pad >= 0})
+	// what the peer has sent counts at once (it only ever lowers what the peer may still send)
+	l.mu.Lock()
+	st := l.stream(sid)
+	st.Sent += n
+	l.connSent += n
+	l.connSend -= n
+	l.stats.PeerDataFrames++
+	l.stats.PeerDataBytes += n
+	if pad >= 0 {
+		l.stats.PaddedSent++
+	}
+	if endStream {
+		st.PeerEnded = true
+	}
+	l.mu.Unlock()
+	l.P.Tick()
 	if raw != nil {
 		return l.P.WriteRaw(raw)
 	}
@@ -371,19 +386,6 @@ func (l *Ledger) applyOp(o lop) {
 		s := l.stream(o.sid)
 		s.PeerReset = true
 		delete(l.live, o.sid)
-	case opData:
-		s := l.stream(o.sid)
-		s.Sent += o.n
-		l.connSent += o.n
-		l.connSend -= o.n
-		l.stats.PeerDataFrames++
-		l.stats.PeerDataBytes += o.n
-		if o.hasIW {
-			l.stats.PaddedSent++
-		}
-		if o.end {
-			s.PeerEnded = true
-		}
 	}
 }
 
@@ -528,7 +530,9 @@ func (l *Ledger) applyEvent(idx int, e *Event) {
 		}
 	case http2.FrameRSTStream:
 		s := l.stream(e.StreamID)
-		s.ImplReset, s.ImplResetCode = true, e.ErrCode
+		if !s.ImplReset { // the first RST_STREAM is the implementation's verdict on the stream
+			s.ImplReset, s.ImplResetCode = true, e.ErrCode
+		}
 		delete(l.live, e.StreamID)
 	case http2.FrameSettings:
 		if e.Ack() {
@@ -672,6 +676,32 @@ func (l *Ledger) WaitUntil(timeout time.Duration, pred func() bool) (bool, time.
 	}
 }
 
+// WaitProgress is WaitUntil with an idle watchdog: it gives up when no frame at
+// all has arrived for idle (or after total). For waits whose length is
+// proportional to the amount of data that has to arrive.
+func (l *Ledger) WaitProgress(idle, total time.Duration, pred func() bool) (ok bool, waited, longestGap time.Duration) {
+	start := time.Now()
+	last := start
+	for {
+		n0 := l.P.Len()
+		ok, _ := l.WaitUntil(idle, func() bool { return pred() || l.P.Len() > n0 })
+		now := time.Now()
+		if pred() {
+			if g := now.Sub(last); g > longestGap {
+				longestGap = g
+			}
+			return true, now.Sub(start), longestGap
+		}
+		if !ok || l.EOF() || now.Sub(start) > total {
+			return false, now.Sub(start), now.Sub(last)
+		}
+		if g := now.Sub(last); g > longestGap {
+			longestGap = g
+		}
+		last = now
+	}
+}
+
 // ---------------------------------------------------------------- queries
 
 func (l *Ledger) Violations() []LViolation {
@@ -737,6 +767,9 @@ func (l *Ledger) Allowance(sid uint32) int64 {
 	}
 	return maxOf(l.iw) + s.Grants - s.Recv
 }
+
+// DataBytes is the total of DATA payload bytes received on all streams.
+func (l *Ledger) DataBytes() int64 { l.mu.Lock(); defer l.mu.Unlock(); return l.stats.DataBytes }
 
 func (l *Ledger) ConnAllowance() int64 {
 	l.mu.Lock()
